@@ -130,6 +130,24 @@ def fixed_programs():
             out.append({"params": mp2, "names": [], "funs": [f], "consts": consts, "macros": [], "body": ("call", "SELP", [cond, ("var", "A"), ("var", "B")], None), "tag": "paircond_%s_%d" % (kind, ci)})
             if kind == "defun":
                 out.append({"params": mp2, "names": [], "funs": [g], "consts": consts, "macros": [], "body": ("call", "INNER", [("var", "A"), ("var", "B")], None), "tag": "paircond_body_%d" % ci})
+    # lambdas with two or three captures of which some are known constants at the creation site and others are not
+    for kind in ("defun", "inline"):
+        for order in (("K", "M"), ("M", "K"), ("K", "M", "N"), ("M", "K", "N")):
+            caps = list(order)
+            body = ("op", "+", [("op", "*", [("var", "K"), ("int", 100)]), ("op", "*", [("var", "M"), ("int", 10)]), ("var", "Q")] + ([("op", "*", [("var", "N"), ("int", 1000)])] if "N" in caps else []))
+            lam = ("lambda", caps, ["Q"], body, [("int", 5)])
+            f = {"name": "MKL", "kind": kind, "params": ("p", [("n", "K", "I"), ("n", "M", "I"), ("n", "N", "I")], None), "names": [], "body": lam, "rtype": "I"}
+            mp4 = ("p", [("n", "X", "I"), ("n", "Y", "I")], None)
+            out.append({"params": mp4, "names": [], "funs": [f], "consts": [], "macros": [], "body": ("call", "MKL", [("int", 3), ("var", "X"), ("var", "Y")], None), "tag": "lamcap_%s_%s" % (kind, "".join(caps))})
+    # a parameter whose only use sits below ~110 nested operator calls / at the end of a 122-element list
+    mp5 = ("p", [("n", "AA", "I"), ("n", "BB", "I"), ("n", "CC", "I")], None)
+    deep = ("var", "BB")
+    for _ in range(110):
+        deep = ("op", "+", [("int", 1), deep])
+    out.append({"params": mp5, "names": [], "funs": [], "consts": [], "macros": [], "body": ("op", "+", [("var", "AA"), deep]), "tag": "deepnest_main"})
+    out.append({"params": mp5, "names": [], "funs": [{"name": "DEEPF", "kind": "defun", "params": ("p", [("n", "P", "I")], None), "names": [], "body": ("op", "+", [("int", 1), deep[2][1]]) if False else ("var", "P"), "rtype": "I"}],
+                "consts": [], "macros": [], "body": ("op", "+", [("var", "AA"), ("call", "DEEPF", [deep], None)]), "tag": "deepnest_arg"})
+    out.append({"params": mp5, "names": [], "funs": [], "consts": [], "macros": [], "body": ("list", [("int", i) for i in range(121)] + [("var", "BB")]), "tag": "deepnest_list"})
     # functions whose compiled code is identical (one symbol-table key for both) but whose parameter lists differ
     def fn(name, params, body, kind="defun"):
         return {"name": name, "kind": kind, "params": ("p", [("n", x, "I") for x in params], None), "names": [], "body": body, "rtype": "I"}
